@@ -294,8 +294,16 @@ def check_timecourse_time(ctx):
     ctx.decide(ok, "IOAGREE", "EmulsionTimeCourse:attrs[time]", (w, wr["time"][0]) if "time" in wr else w, "every frame's time is stored next to its dataset and read from there",
                "the frame time is not written to / read from dataset.attrs['time'] for every frame (an empty frame must carry its time as well)")
     rv = view(m, r)
-    ap = [c for c in rv.calls() if isinstance(c.func, ast.Attribute) and c.func.attr == "append" and kwarg(c, "time") is not None]
-    oka = len(ap) == 1 and U(rv.expand(kwarg(ap[0], "time"), ap[0], stop=("dataset",))) == "dataset.attrs['time']" and U(rv.expand(ap[0].args[0], ap[0], stop=("dataset",))) == "Emulsion._from_hdf_dataset(dataset)"
+    ap = [c for c in rv.calls() if isinstance(c.func, ast.Attribute) and c.func.attr == "append" and arg_or_kw(c, 1, "time") is not None]
+    oka = False
+    if len(ap) == 1 and ap[0].args:
+        # whatever the dataset handle is called: the emulsion read from a dataset is appended with that same dataset's time
+        E_ = U(rv.expand(ap[0].args[0], ap[0], allow_mutated=True))
+        T_ = U(rv.expand(arg_or_kw(ap[0], 1, "time"), ap[0], allow_mutated=True))
+        pre_, suf_ = "Emulsion._from_hdf_dataset(", ")"
+        if E_.startswith(pre_) and E_.endswith(suf_):
+            D_ = E_[len(pre_):-len(suf_)]
+            oka = T_ == f"{D_}.attrs['time']"
     ctx.decide(oka, "IOAGREE", "EmulsionTimeCourse:reader", (r, ap[0]) if ap else r, "each frame is appended with its stored time", "frames are not appended as (Emulsion._from_hdf_dataset(dataset), time=dataset.attrs['time'])")
 
 
@@ -343,7 +351,7 @@ def check_time_column(ctx):
     rv = view(m, r)
     rsi = stmt_index(rv)
     drop = [c for c in rv.calls() if (rv.callee(c) or "").endswith("rec_drop_fields")]
-    ap = [c for c in rv.calls() if isinstance(c.func, ast.Attribute) and c.func.attr == "append" and kwarg(c, "time") is not None]
+    ap = [c for c in rv.calls() if isinstance(c.func, ast.Attribute) and c.func.attr == "append" and arg_or_kw(c, 1, "time") is not None]
     okd = oka = False
     if len(drop) == 1 and len(ap) == 1:
         okd = U(drop[0].args[0]) == "dataset" and U(drop[0].args[1]) == repr(name)
@@ -352,7 +360,7 @@ def check_time_column(ctx):
             tv, rowv = (U(e) for e in lpq[0].target.elts)
             z0, z1 = (U(rv.expand(a, lpq[0])) for a in lpq[0].iter.args)
             okd = okd and z0 == f"dataset[{name!r}]" and z1.replace(" ", "") == f"rfn.rec_drop_fields(dataset,{name!r})"
-            oka = U(kwarg(ap[0], "time")) == tv and U(rv.expand(ap[0].args[0], ap[0], stop=(rowv, tv, "dataset"))).replace("dataset.attrs['droplet_class']", "droplet_class") == f"droplet_from_data(droplet_class, {rowv})"
+            oka = U(arg_or_kw(ap[0], 1, "time")) == tv and U(rv.expand(ap[0].args[0], ap[0], stop=(rowv, tv, "dataset"))).replace("dataset.attrs['droplet_class']", "droplet_class") == f"droplet_from_data(droplet_class, {rowv})"
     ctx.decide(okd, "IOAGREE", site + ":reader", (r, drop[0]) if drop else r, f"reader takes the times from column '{name}' and drops exactly that column",
                f"reader does not split off the '{name}' column written by DropletTrack.data")
     ctx.decide(oka, "IOAGREE", site + ":append", (r, ap[0]) if ap else r, "each row is rebuilt as a droplet and appended with its stored time", "rows are not appended as (droplet_from_data(class, row), time=<stored time>)")
